@@ -174,7 +174,7 @@ fn socks_handshake_all_paths() {
     let sock = TcpStream { local_ok: kani::any() };
     let required = l.auth.required;
     let allow_udp = l.allow_udp;
-    let ret = kani::block_on(l.handshake(sock, SocketAddr { ip: IpAddr(3), port: 4000 }, Arc(&st), Sender(0, std::marker::PhantomData)));
+    let ret = run_ready(l.handshake(sock, SocketAddr { ip: IpAddr(3), port: 4000 }, Arc(&st), Sender(0, std::marker::PhantomData)));
     unsafe {
         // C07: the listener's credential policy is what the negotiation is run with, and the verdict is asked for
         // exactly the credentials of this request, before anything is routed
@@ -205,4 +205,10 @@ fn socks_handshake_all_paths() {
     }
 }
 
+/// every stub future is immediately ready, so the task completes within one poll (cheaper than kani::block_on's loop)
+pub fn run_ready<F: std::future::Future>(f: F) -> F::Output {
+    let mut f = std::pin::pin!(f);
+    let mut cx = std::task::Context::from_waker(std::task::Waker::noop());
+    match f.as_mut().poll(&mut cx) { std::task::Poll::Ready(v) => v, std::task::Poll::Pending => panic!("stub future pending") }
+}
 fn main() {}
